@@ -176,6 +176,26 @@ func compatible(owner *extInfo, path string, h healthyRef, slot int, others []he
 // ---------------------------------------------------------------------------------------
 // Generator.
 
+// ubits draws k unbiased bits (rapid's integer generators favour small values, which would
+// starve the extractors, fixtures and file offsets at the far end of their ranges).
+func ubits(t *rapid.T, label string, k int) int {
+	x := 0
+	for i := 0; i < k; i++ {
+		if rapid.Bool().Draw(t, label) {
+			x |= 1 << i
+		}
+	}
+	return x
+}
+
+// upick draws an index in [0,n) almost uniformly.
+func upick(t *rapid.T, label string, n int) int {
+	if n <= 1 {
+		return 0
+	}
+	return ubits(t, label, 12) * n >> 12
+}
+
 func genMut(t *rapid.T, e *extInfo, depth int) Mut {
 	ops := mutOps
 	if e.Zip && depth == 0 {
@@ -185,36 +205,36 @@ func genMut(t *rapid.T, e *extInfo, depth int) Mut {
 			ops = zipOps
 		}
 	}
-	m := Mut{Op: rapid.SampledFrom(ops).Draw(t, "op")}
+	m := Mut{Op: ops[upick(t, "op", len(ops))]}
 	switch m.Op {
 	case "trunc", "delline", "dupline", "deltok", "duptok", "zipdup", "zipdel":
-		m.A = rapid.IntRange(0, 1<<16).Draw(t, "a")
+		m.A = ubits(t, "a", 16)
 	case "swapline", "swaptok", "flip", "delrange", "repeat":
-		m.A = rapid.IntRange(0, 1<<16).Draw(t, "a")
-		m.B = rapid.IntRange(0, 1<<10).Draw(t, "b")
+		m.A = ubits(t, "a", 16)
+		m.B = ubits(t, "b", 10)
 	case "setbyte":
-		m.A = rapid.IntRange(0, 1<<16).Draw(t, "a")
+		m.A = ubits(t, "a", 16)
 		m.B = rapid.SampledFrom([]int{0, 0xff, 0x7f, 0x80, '\n', '"', '{', '[', '<', ' ', 1, 0xfe}).Draw(t, "b")
 	case "scalar":
-		m.A = rapid.IntRange(0, 1<<12).Draw(t, "a")
-		m.S = rapid.SampledFrom(hostileScalars).Draw(t, "s")
+		m.A = ubits(t, "a", 12)
+		m.S = hostileScalars[upick(t, "s", len(hostileScalars))]
 	case "insert":
-		m.A = rapid.IntRange(0, 1<<16).Draw(t, "a")
-		m.S = rapid.SampledFrom(hostileTokens).Draw(t, "s")
+		m.A = ubits(t, "a", 16)
+		m.S = hostileTokens[upick(t, "s", len(hostileTokens))]
 	case "strprefix", "strsuffix":
-		m.A = rapid.IntRange(0, 1<<12).Draw(t, "a")
-		m.S = rapid.SampledFrom(hostileAffixes).Draw(t, "s")
+		m.A = ubits(t, "a", 12)
+		m.S = hostileAffixes[upick(t, "s", len(hostileAffixes))]
 	case "strempty":
-		m.A = rapid.IntRange(0, 1<<12).Draw(t, "a")
+		m.A = ubits(t, "a", 12)
 	case "nest":
-		m.A = rapid.IntRange(0, 1<<16).Draw(t, "a")
+		m.A = ubits(t, "a", 16)
 		m.B = rapid.SampledFrom([]int{1, 10, 100, 1000, 5000, 10001, 40000, 59999}).Draw(t, "b")
 		m.S = rapid.SampledFrom([]string{"[", "{", "(", "<a>", "{\"a\":", "[[", "- ", "  ", "a:\n ", "((", "\"", "{a=", "<", "&", "*", "!"}).Draw(t, "s")
 	case "splice":
-		m.A = rapid.IntRange(0, 1<<16).Draw(t, "a")
-		m.B = rapid.IntRange(0, 1<<16).Draw(t, "b")
+		m.A = ubits(t, "a", 16)
+		m.B = ubits(t, "b", 16)
 		if len(e.Fixtures) > 0 {
-			m.S = rapid.SampledFrom(e.Fixtures).Draw(t, "other").Rel
+			m.S = e.Fixtures[upick(t, "other", len(e.Fixtures))].Rel
 		}
 	case "zip":
 		m.A = rapid.IntRange(0, 64).Draw(t, "a")
@@ -236,7 +256,7 @@ func genMut(t *rapid.T, e *extInfo, depth int) Mut {
 func genC02(t *rapid.T) c02Case {
 	generating.Store(true)
 	reg := Registry()
-	e := rapid.SampledFrom(reg).Draw(t, "extractor")
+	e := reg[upick(t, "extractor", len(reg))]
 	c := c02Case{Leg: "mutants", Extractor: e.Name}
 	useRaw := len(e.Fixtures) == 0 || rapid.IntRange(0, 19).Draw(t, "rawseed") == 0
 	if useRaw {
@@ -252,7 +272,7 @@ func genC02(t *rapid.T) c02Case {
 		}
 		c.Path = rapid.SampledFrom(paths).Draw(t, "path")
 	} else {
-		f := rapid.SampledFrom(e.Fixtures).Draw(t, "fixture")
+		f := e.Fixtures[upick(t, "fixture", len(e.Fixtures))]
 		c.Base = f.Rel
 		c.Path = rapid.SampledFrom(f.Paths).Draw(t, "path")
 	}
